@@ -4,7 +4,9 @@ import (
 	"context"
 	"errors"
 	"fmt"
+	"reflect"
 	"strings"
+	"time"
 
 	corev1 "k8s.io/api/core/v1"
 	apierrors "k8s.io/apimachinery/pkg/api/errors"
@@ -31,10 +33,13 @@ const (
 	// (AlreadyExists for create, Conflict for update/patch/status writes, TooManyRequests for delete,
 	// ServerTimeout for reads), which client code may treat specially (IgnoreAlreadyExists, IsConflict ...)
 	FaultRejectTyped
+	// FaultLostAnswerTyped: as FaultLostAnswer (the call is applied), answered with ServerTimeout - the ambiguous
+	// outcome of a write whose answer timed out, which client code may be tempted to retry
+	FaultLostAnswerTyped
 )
 
 func (k FaultKind) String() string {
-	return [...]string{"none", "reject", "lost-answer", "crash-before", "crash-after", "reject-typed"}[k]
+	return [...]string{"none", "reject", "lost-answer", "crash-before", "crash-after", "reject-typed", "lost-answer-typed"}[k]
 }
 
 // FaultFunc decides the fate of a call before it is applied.
@@ -126,6 +131,8 @@ func (s *simClient) finish(call *Call, k FaultKind, err error) error {
 	switch k {
 	case FaultLostAnswer:
 		err = ErrInjected
+	case FaultLostAnswerTyped:
+		err = apierrors.NewServerTimeout(schema.GroupResource{Resource: strings.ToLower(call.Kind) + "s"}, call.Verb, 1)
 	case FaultCrashAfter:
 		err = ErrCrashed
 	}
@@ -203,13 +210,39 @@ func (s *simClient) List(ctx context.Context, list client.ObjectList, opts ...cl
 	return s.finish(call, k, err)
 }
 
+// answerLost: the call is applied but its answer never reaches the caller.
+func answerLost(k FaultKind) bool {
+	return k == FaultLostAnswer || k == FaultLostAnswerTyped || k == FaultCrashAfter
+}
+
+// assign copies the server's answer into the caller's object, as a real client does when it decodes the response.
+func assign(dst, src client.Object) {
+	reflect.ValueOf(dst).Elem().Set(reflect.ValueOf(src).Elem())
+}
+
+// answered runs a write on a copy of the caller's object and hands the answer (generated name, uid, resourceVersion)
+// over only if the call succeeded and its answer arrived: after an error a real client leaves the object as sent.
+func answered(obj client.Object, k FaultKind, do func(cp client.Object) error) error {
+	cp := obj.DeepCopyObject().(client.Object)
+	err := do(cp)
+	if err == nil && !answerLost(k) {
+		assign(obj, cp)
+	}
+	return err
+}
+
 func (s *simClient) Create(ctx context.Context, obj client.Object, opts ...client.CreateOption) error {
-	s.c.stampNew(obj)
-	call, k := s.begin("create", obj, obj.GetNamespace(), obj.GetName(), true)
+	sent := obj.DeepCopyObject().(client.Object)
+	s.c.stampNew(sent)
+	call, k := s.begin("create", sent, sent.GetNamespace(), sent.GetName(), true)
 	if stop, err := early(call, k); stop {
 		return err
 	}
-	return s.finish(call, k, s.c.fake.Create(ctx, obj, opts...))
+	err := s.c.fake.Create(ctx, sent, opts...)
+	if err == nil && !answerLost(k) {
+		assign(obj, sent)
+	}
+	return s.finish(call, k, err)
 }
 
 func (s *simClient) Delete(ctx context.Context, obj client.Object, opts ...client.DeleteOption) error {
@@ -250,7 +283,8 @@ func (c *Cluster) gracefulDeletePod(ns, name string) error {
 		c.rawDelete(GVKPod, ns, name)
 		return nil
 	}
-	ts := metav1.NewTime(verifclock.Now())
+	// request time + grace period, as the API server records it
+	ts := metav1.NewTime(verifclock.Now().Add(time.Duration(grace) * time.Second))
 	cur.DeletionTimestamp = &ts
 	cur.DeletionGracePeriodSeconds = &grace
 	// the kubelet plays the role of a finalizer; without one the fake client
@@ -265,7 +299,7 @@ func (s *simClient) Update(ctx context.Context, obj client.Object, opts ...clien
 	if stop, err := early(call, k); stop {
 		return err
 	}
-	return s.finish(call, k, s.c.fake.Update(ctx, obj, opts...))
+	return s.finish(call, k, answered(obj, k, func(cp client.Object) error { return s.c.fake.Update(ctx, cp, opts...) }))
 }
 
 func (s *simClient) Patch(ctx context.Context, obj client.Object, patch client.Patch, opts ...client.PatchOption) error {
@@ -273,7 +307,7 @@ func (s *simClient) Patch(ctx context.Context, obj client.Object, patch client.P
 	if stop, err := early(call, k); stop {
 		return err
 	}
-	return s.finish(call, k, s.c.fake.Patch(ctx, obj, patch, opts...))
+	return s.finish(call, k, answered(obj, k, func(cp client.Object) error { return s.c.fake.Patch(ctx, cp, patch, opts...) }))
 }
 
 func (s *simClient) DeleteAllOf(ctx context.Context, obj client.Object, opts ...client.DeleteAllOfOption) error {
@@ -309,7 +343,7 @@ func (w *simStatus) Update(ctx context.Context, obj client.Object, opts ...clien
 	if stop, err := early(call, k); stop {
 		return err
 	}
-	return w.s.finish(call, k, w.s.c.fake.Status().Update(ctx, obj, opts...))
+	return w.s.finish(call, k, answered(obj, k, func(cp client.Object) error { return w.s.c.fake.Status().Update(ctx, cp, opts...) }))
 }
 
 func (w *simStatus) Patch(ctx context.Context, obj client.Object, patch client.Patch, opts ...client.SubResourcePatchOption) error {
@@ -317,5 +351,5 @@ func (w *simStatus) Patch(ctx context.Context, obj client.Object, patch client.P
 	if stop, err := early(call, k); stop {
 		return err
 	}
-	return w.s.finish(call, k, w.s.c.fake.Status().Patch(ctx, obj, patch, opts...))
+	return w.s.finish(call, k, answered(obj, k, func(cp client.Object) error { return w.s.c.fake.Status().Patch(ctx, cp, patch, opts...) }))
 }
